@@ -1601,11 +1601,18 @@ func compositeFields(info *types.Info, e ast.Expr) map[string]ast.Expr {
 	if !ok {
 		return out
 	}
-	for _, el := range cl.Elts {
+	var st *types.Struct
+	if t := info.TypeOf(cl); t != nil {
+		st, _ = t.Underlying().(*types.Struct)
+	}
+	for i, el := range cl.Elts {
 		if kv, ok := el.(*ast.KeyValueExpr); ok {
 			if id, ok := kv.Key.(*ast.Ident); ok {
 				out[id.Name] = kv.Value
 			}
+		} else if st != nil && i < st.NumFields() {
+			// positional form
+			out[st.Field(i).Name()] = el
 		}
 	}
 	return out
